@@ -1,3 +1,5 @@
+//go:build verif_c05
+
 package main
 
 // C05 — independent extraction of the part graph from the bytes of a saved
